@@ -63,6 +63,10 @@ pub fn make_ping() -> std::io::Result<(Ping, PingSource)> {
 #[inline]
 fn send_ping(fd: BorrowedFd<'_>, count: u64) -> std::io::Result<()> {
     assert!(count > 0);
+    #[cfg(calloop_verif)]
+    crate::verif::point(crate::verif::Site::PingWriteBefore);
+    #[cfg(calloop_verif)]
+    let _verif_after = VerifAfterWrite;
     match write(fd, &count.to_ne_bytes()) {
         // The write succeeded, the ping will wake up the loop.
         Ok(_) => Ok(()),
@@ -81,6 +85,8 @@ fn drain_ping(fd: BorrowedFd<'_>) -> std::io::Result<u64> {
     // The eventfd counter is effectively a u64.
     const NBYTES: usize = 8;
     let mut buf = [0u8; NBYTES];
+    #[cfg(calloop_verif)]
+    crate::verif::point(crate::verif::Site::PingDrain);
 
     match read(fd, &mut buf) {
         // Reading from an eventfd should only ever produce 8 bytes. No looping
@@ -91,6 +97,17 @@ fn drain_ping(fd: BorrowedFd<'_>) -> std::io::Result<u64> {
 
         // Any other error can be propagated.
         Err(e) => Err(e.into()),
+    }
+}
+
+// Reaches the `PingWriteAfter` point once the write of `send_ping` has been made.
+#[cfg(calloop_verif)]
+struct VerifAfterWrite;
+
+#[cfg(calloop_verif)]
+impl Drop for VerifAfterWrite {
+    fn drop(&mut self) {
+        crate::verif::point(crate::verif::Site::PingWriteAfter);
     }
 }
 
@@ -188,6 +205,8 @@ struct FlagOnDrop(Arc<OwnedFd>);
 
 impl Drop for FlagOnDrop {
     fn drop(&mut self) {
+        #[cfg(calloop_verif)]
+        crate::verif::point(crate::verif::Site::PingFlagDrop);
         if let Err(e) = send_ping(self.0.as_fd(), INCREMENT_CLOSE) {
             warn!("Failed to send close ping: {e:?}");
         }
